@@ -477,7 +477,7 @@ def crafted(rng):
 def all_mutants(bases, rng, tier):
     """list of dict(kind, base, phys)"""
     out = []
-    n_xml = 90 if tier == "quick" else 4000
+    n_xml = 90 if tier == "quick" else 1500
     for b in bases:
         out.append(dict(kind="unmodified", base=b.name, phys=b.phys))
         r = core.Rng(rng.next())
@@ -589,11 +589,14 @@ def devtok(phys):
 
 def run_tot(binary, muts, masks, prelude=(), cap="-"):
     """TOT on every mutant; cases whose process died are re-run alone so that the crash is attributed correctly"""
-    lines = ["TOT %s %s %s" % (devtok(m["phys"]), ",".join(str(x) for x in masks) if masks != "all" else "all", cap) for m in muts]
-    outs = core.run_cases(binary, lines, prelude=prelude)
-    bad = [i for i, o in enumerate(outs) if o is None or o.startswith("CRASH")]
-    for i in bad:
-        outs[i] = core.run_cases(binary, [lines[i]], shards=1, prelude=prelude)[0]
+    mtok = ",".join(str(x) for x in masks) if masks != "all" else "all"
+    outs = []
+    for c0 in range(0, len(muts), 4000):       # in batches: the case lines are twice the size of the files
+        lines = ["TOT %s %s %s" % (devtok(m["phys"]), mtok, cap) for m in muts[c0:c0 + 4000]]
+        o = core.run_cases(binary, lines, prelude=prelude)
+        for i in [i for i, x in enumerate(o) if x is None or x.startswith("CRASH")]:
+            o[i] = core.run_cases(binary, [lines[i]], shards=1, prelude=prelude)[0]
+        outs += o
     return outs
 
 
@@ -698,8 +701,9 @@ def explore(rep, tier, rng, replay, profiles=("debug", "release")):
     midx = [i for i, m in enumerate(muts)
             if points(tots[first][i]) <= MODEL_MAX_POINTS and
             (replay or len(m["phys"]) <= MODEL_MAX_BYTES or (not tots[first][i]["crash"] and r2.below(60) == 0))]
-    mlines = [model_line(tots[first][i], devtok(muts[i]["phys"])) for i in midx]
-    mout = core.run_cases(core.DRIVER, mlines)
+    mout = []
+    for c0 in range(0, len(midx), 4000):
+        mout += core.run_cases(core.DRIVER, [model_line(tots[first][i], devtok(muts[i]["phys"])) for i in midx[c0:c0 + 4000]])
     model = [None] * len(muts)
     for i, o in zip(midx, mout):
         model[i] = o
